@@ -385,6 +385,10 @@ class Lexer():
                     elif hex_m:
                         c = bytes([int(hex_m.group(1), 16)])
                         i += 3
+                    elif s[i+1:i+3] == b'\r\n':
+                        # Escaped Windows line break.
+                        c = b'\n'
+                        i += 2
                     else:
                         next_c = s[i+1:i+2]
                         if next_c in _STRING_ESCAPES:
